@@ -70,6 +70,10 @@ func c13Generic(c *run.C) {
 		c.Violationf("unfold-error", "generic:new", "NewUnfolder(&interface{}) failed: %v", err)
 		return
 	}
+	if r.P(1, 4) {
+		u.EnableKeyCache(gen.Pick(r, []int{0, 1, 3, 16}))
+		c.Observe("generic_with_key_cache", 1)
+	}
 	err, ok := feedUnfolder(c, u, s, path)
 	if !ok {
 		return
@@ -428,6 +432,10 @@ func c13Typed(c *run.C) {
 	if err != nil {
 		c.Violationf("refused-supported", "typed:refused", "NewUnfolder refused a supported target: %v\ntype=%s", err, t)
 		return
+	}
+	if r.P(1, 4) {
+		u.EnableKeyCache(gen.Pick(r, []int{0, 1, 3, 16}))
+		c.Observe("typed_with_key_cache", 1)
 	}
 	err, ok := feedUnfolder(c, u, s, path)
 	if !ok {
